@@ -1,4 +1,4 @@
 From Coq Require Import List NArith ZArith Extraction ExtrOcamlBasic.
 From DDP Require Import Lex.LitUtf8 Lex.Literals.
 Extraction Language OCaml.
-Extraction "c19_model.ml" lit_string lit_char parse_int_lit parse_float_lit sf_bits parse_string parse_char decode_all encode.
+Extraction "c19_model.ml" lit_string lit_char parse_int_lit negate_int_lit parse_float_lit sf_bits parse_string parse_char decode_all encode.
